@@ -317,23 +317,24 @@ func count(K []kv, name string) int {
 // to the call (used to decide whether CPython's choice of class is comparable).
 func specBind(s *sigT, st *siteT, S *starOpt, D *dstarOpt) (res outcome, classes []string) {
 	// operands
+	var operand []string
 	if D != nil && D.Bad {
-		classes = append(classes, "dstar")
+		operand = append(operand, "dstar")
 	}
 	if D != nil && !D.Bad {
 		for _, it := range D.Items {
 			if !it.IsStr {
-				classes = append(classes, "key")
+				operand = append(operand, "key")
 				break
 			}
 		}
 	}
 	if S != nil && S.Bad {
-		classes = append(classes, "star")
+		operand = append(operand, "star")
 	}
-	if len(classes) > 0 {
-		return outcome{Err: classes[0]}, classes
-	}
+	classes = append(classes, operand...)
+	// (with an operand error the remaining classes are still collected, from
+	// the usable part of the call, to know whether several classes apply)
 	var P []int
 	for i := 0; i < st.NPos; i++ {
 		P = append(P, 101+i)
@@ -344,7 +345,9 @@ func specBind(s *sigT, st *siteT, S *starOpt, D *dstarOpt) (res outcome, classes
 	K := append([]kv{}, st.Named...)
 	if D != nil {
 		for _, it := range D.Items {
-			K = append(K, kv{it.K, it.V})
+			if it.IsStr {
+				K = append(K, kv{it.K, it.V})
+			}
 		}
 	}
 	type pp struct {
@@ -425,6 +428,8 @@ func specBind(s *sigT, st *siteT, S *starOpt, D *dstarOpt) (res outcome, classes
 		classes = append(classes, "missing")
 	}
 	switch {
+	case len(operand) > 0:
+		return outcome{Err: operand[0]}, classes
 	case tooMany:
 		return outcome{Err: "toomany"}, classes
 	case firstBad != "":
